@@ -44,7 +44,7 @@ func runDT(c DTCase) (Outcome, ModelResult, bool) {
 		return Outcome{}, ModelResult{}, false
 	}
 	o := Opts{TZ: c.TZ, Zone: c.Zone}
-	vars := map[string]any{"a": c.A, "b": c.B}
+	vars := map[string]any{"a": c.A, "b": c.B, "s": []any{c.A, c.B}, "r": []any{c.B, c.A}}
 	mr := RunModel(PathFromAST(p.AST), nil, o, vars, false)
 	opts := []exec.Option{exec.WithVars(exec.Vars(vars))}
 	if c.TZ {
@@ -97,7 +97,7 @@ func checkDTFacts(c DTCase) (*Violation, dtFacts) {
 	// a non-suppressible zone error must survive WithSilent, every other rejection must vanish
 	if p2, perr, _ := ParseSafe(c.Path); perr == nil {
 		o := Opts{TZ: c.TZ, Zone: c.Zone}
-		sopts := []exec.Option{exec.WithVars(exec.Vars{"a": c.A, "b": c.B}), exec.WithSilent()}
+		sopts := []exec.Option{exec.WithVars(exec.Vars{"a": c.A, "b": c.B, "s": []any{c.A, c.B}, "r": []any{c.B, c.A}}), exec.WithSilent()}
 		if c.TZ {
 			sopts = append(sopts, exec.WithTZ())
 		}
@@ -489,6 +489,24 @@ func TestC17(t *testing.T) {
 		}
 	}
 	runTable("precision_casts_next_to_offset_changes", "c17.datetime", edge, checkDTFacts)
+	// sequences: a pair that needs the context zone is a non-suppressible error without WithTZ wherever it stands
+	// among the pairs that lax mode looks at (it stops at the first true pair), and everywhere in strict mode
+	var seqs []DTCase
+	for i, a := range dtStrings[:45] {
+		for j, b := range dtStrings[:45] {
+			if (i+j)%3 != 0 {
+				continue
+			}
+			for _, md := range []string{"", "strict "} {
+				for _, sh := range [][2]string{{"$s[*]", "$b"}, {"$r[*]", "$b"}, {"$a", "$s[*]"}, {"$a", "$r[*]"}, {"$s[*]", "$r[*]"}} {
+					for _, op := range []string{"<", "==", ">="} {
+						seqs = append(seqs, DTCase{Path: md + sh[0] + ".datetime() " + op + " " + sh[1] + ".datetime()", A: a, B: b})
+					}
+				}
+			}
+		}
+	}
+	runTable("sequence_comparisons_without_zone", "c17.datetime", seqs, checkDTFacts)
 	// the zone of the process (time.Local, which time.Parse attaches to a value whose offset that zone uses) is no
 	// input: the same call returns the same items under every process zone
 	t.Run("process_zone_is_no_input", func(t *testing.T) {
@@ -635,7 +653,14 @@ func TestC17(t *testing.T) {
 		}
 		tz := rapid.IntRange(0, 9).Draw(rt, "tz") < 7
 		var c DTCase
-		switch rapid.IntRange(0, 2).Draw(rt, "shape") {
+		switch rapid.IntRange(0, 3).Draw(rt, "shape") {
+		case 3:
+			// sequences of datetimes ($s = [a, b], $r = [b, a]): lax mode stops at the first pair that is true or
+			// needs a zone it does not have, strict mode looks at every pair - a pair that needs the zone is an
+			// error wherever it stands
+			l, r := rapid.SampledFrom([]string{"$s[*]", "$r[*]", "$a", "$b"}).Draw(rt, "lseq"), rapid.SampledFrom([]string{"$s[*]", "$r[*]", "$a", "$b"}).Draw(rt, "rseq")
+			c = DTCase{Path: rapid.SampledFrom([]string{"", "strict "}).Draw(rt, "mode") + l + ".datetime() " + rapid.SampledFrom(cmpOps).Draw(rt, "op") + " " + r + ".datetime()", A: a, B: b2, TZ: tz, Zone: zone}
+			ev.Label("random:sequence_comparison")
 		case 0:
 			m := rapid.SampledFrom(dtMethods).Draw(rt, "m")
 			arg := ""
